@@ -365,6 +365,101 @@ fn f5_repaired_input_agrees(src: &str, defs: &Defs, plain_tokens: &[String]) -> 
     }
 }
 
+/// F1 under strip_comments is recognised by repairing the input: with every string literal / escaped
+/// identifier (those that are not the argument of `include, `line, `begin_keywords, `pragma) turned into
+/// a plain word the two runs must agree - if need be after the F5 / F13 repairs as well
+fn p1d_repaired_agrees(src: &str, defs: &Defs) -> bool {
+    let Some((repaired, k)) = literals_outside_defines_replaced(src) else { return false };
+    if k == 0 {
+        return true;
+    }
+    let run = |t: &str, strip: bool| match api::pp_str(t, Path::new("top.sv"), defs, &[] as &[PathBuf], false, strip) {
+        Ok(Ok((pt, _))) => Some(sig_lexemes(pt.text())),
+        _ => None,
+    };
+    match (run(&repaired, false), run(&repaired, true)) {
+        (Some(a), Some(b)) => a == b || (a.concat() == b.concat() && f5_repaired_input_agrees(&repaired, defs, &a)) || f13_repaired_agrees(&repaired, defs) || crate::props::c06::literal_then_directive(&plain_text(&repaired, defs)),
+        _ => false,
+    }
+}
+
+fn plain_text(src: &str, defs: &Defs) -> String {
+    match api::pp_str(src, Path::new("top.sv"), defs, &[] as &[PathBuf], false, false) {
+        Ok(Ok((pt, _))) => pt.text().to_string(),
+        _ => String::new(),
+    }
+}
+
+/// `src` with every string literal / escaped identifier that stands outside `define lines and is not
+/// the argument of `include, `line, `begin_keywords, `pragma turned into the bracketed word [lit__k];
+/// also the number of replacements
+fn literals_outside_defines_replaced(src: &str) -> Option<(String, usize)> {
+    let lx = lexref::lex_opts(src, true).ok()?;
+    let mut repaired = String::new();
+    let mut arg_of_directive = false;
+    let mut in_define = false;
+    let mut k = 0;
+    for l in &lx {
+        let w = &src[l.b..l.e];
+        match l.k {
+            lexref::K::Bt => {
+                arg_of_directive = matches!(w, "`include" | "`line" | "`begin_keywords" | "`pragma");
+                if w == "`define" {
+                    in_define = true;
+                }
+                repaired.push_str(w);
+            }
+            lexref::K::Str | lexref::K::EscId if !arg_of_directive && !in_define => {
+                k += 1;
+                repaired.push_str(&format!("[lit__{}]", k));
+            }
+            lexref::K::Ws if w.contains('\n') => {
+                arg_of_directive = false;
+                // (a continuation is a Ws lexeme that starts with a backslash)
+                if !w.starts_with('\\') {
+                    in_define = false;
+                }
+                repaired.push_str(w);
+            }
+            lexref::K::LineCmt => {
+                repaired.push_str(w);
+            }
+            _ => repaired.push_str(w),
+        }
+    }
+    Some((repaired, k))
+}
+
+/// a literal followed by a directive outside `define lines
+fn literal_then_directive_outside_defines(src: &str) -> bool {
+    let Ok(lx) = lexref::lex_opts(src, true) else { return false };
+    let mut in_define = false;
+    let mut prev_lit = false;
+    for l in &lx {
+        let w = &src[l.b..l.e];
+        match l.k {
+            lexref::K::Ws => {
+                if w.contains('\n') && !w.starts_with('\\') {
+                    in_define = false;
+                }
+            }
+            lexref::K::LineCmt | lexref::K::BlockCmt => {}
+            lexref::K::Bt => {
+                if prev_lit && !in_define {
+                    return true;
+                }
+                if w == "`define" {
+                    in_define = true;
+                }
+                prev_lit = false;
+            }
+            lexref::K::Str | lexref::K::EscId => prev_lit = !in_define,
+            _ => prev_lit = false,
+        }
+    }
+    false
+}
+
 pub const SIG_CMT_IN_ACTUAL: &str = "line-comment-inside-actual-argument-swallows-rest-of-line";
 
 /// F13: a // comment inside an actual argument is copied into the expansion without the line end that
@@ -450,7 +545,8 @@ pub fn strip_oracle(acc: &mut Acc, p: &Prog, src: &str, defs: &Defs, plain: Resu
                 acc.class("violation");
                 // attribution: the only difference is that tokens separated by nothing but a comment
                 // (or by directive-adjacent white space) in the plain output are fused in the stripped one
-                let sig = if crate::props::c06::literal_then_directive(src) || crate::props::c06::literal_then_directive(t) {
+                let in_src = literal_then_directive_outside_defines(src);
+                let sig = if (in_src && p1d_repaired_agrees(src, defs)) || (!in_src && crate::props::c06::literal_then_directive(t)) {
                     // (also when the literal meets the usage only inside an expansion: visible in the plain output)
                     Some(SIG_STRIP_P1D.to_string())
                 } else if a.concat() == b.concat() && f5_repaired_input_agrees(src, defs, &a) {
